@@ -25,8 +25,11 @@ structure St where
   mon : DistSpec.Mon := {}
   /-- lease mode: the first event after which memory and store are known to drift (finding id) -/
   taint : String := "none"
-  /-- round trip of the bitmap allocator: a SetAllocation moved a subscriber before the fork -/
+  /-- round trip of the bitmap allocator: a SetAllocation moved a subscriber -/
   moved : Bool := false
+  /-- … and the two copies have since handed DIFFERENT units to a new subscriber (finding D40): from here
+      on their tables differ as a consequence -/
+  diverged : Bool := false
 
 /-! ### enumeration order of Store.Query: sorted keys permuted by the Lehmer code of the seed -/
 
@@ -76,13 +79,27 @@ def bit (s : String) (i : Nat) : Option Bool :=
 /-- ParseCIDR masks the announced address to its prefix length -/
 def maskTo (fam addr plen : Nat) : Nat := addr - addr % 2 ^ (fam - plen)
 
-def auditLine (nsubs : Nat) (store : Store) (get : Nat → Obs) : String :=
+def auditLine (nsubs : Nat) (store : Store) (get : Nat → Obs) (units : List (Nat × Nat)) (owner : Nat → Nat → Obs) :
+    String :=
   ",".intercalate ((List.range nsubs).map fun i =>
     let k := i + 1
     let sv := match AMap.lookup store k with
       | some r => s!"{showPfx r.addr r.plen}@{r.epoch}"
       | none => "-"
-    s!"s{k}={sv}|{showGet (get k)}")
+    s!"s{k}={sv}|{showGet (get k)}") ++ ";" ++
+  ",".intercalate (units.map fun (a, l) =>
+    let o := match owner a l with
+      | .sub k => s!"s{k}"
+      | _ => "-"
+    s!"{showPfx a l}={o}")
+
+/-- the subscriber (lowest id) whose STORE record names the prefix -/
+def storeOwner (nsubs : Nat) (store : Store) (a l : Nat) : String :=
+  match (List.range nsubs).find? (fun i => match AMap.lookup store (i + 1) with
+      | some r => r.addr == a && r.plen == l
+      | none => false) with
+  | some i => s!"s{i + 1}"
+  | none => "none"
 
 /-! ### parsing the implementation's audit line for the monitor -/
 
@@ -104,7 +121,26 @@ def parseRow (item : String) : Option DistSpec.Row :=
     | _ => none
   | _ => none
 
-def parseAudit (impl : String) : Option (List DistSpec.Row) := (impl.splitOn ",").mapM parseRow
+def parseRev (item : String) : Option DistSpec.RevRow :=
+  match item.splitOn "=" with
+  | [p, o] => do
+    let (a, l) ← parseAddrLen p
+    let o : Option Nat ← if o == "-" then pure none else (parseTagged 's' o).map some
+    pure (a, l, o)
+  | _ => none
+
+def parseAudit (impl : String) : Option (List DistSpec.Row × List DistSpec.RevRow) :=
+  match impl.splitOn ";" with
+  | [fw, rv] => do
+    let rows ← (fw.splitOn ",").mapM parseRow
+    let rev ← if rv.isEmpty then pure [] else (rv.splitOn ",").mapM parseRev
+    pure (rows, rev)
+  | _ => none
+
+def auditEv (impl : String) : DistSpec.Ev :=
+  match parseAudit impl with
+  | some (rows, rev) => .audit rows rev
+  | none => .nop
 
 /-! ### steps -/
 
@@ -162,12 +198,17 @@ def stepSession (st : St) (s : Session.State) (toks : List String) (impl : Strin
       let xm := maskTo c.famBits x l
       let before := Session.owner s x l
       let s' := Session.remotePut s k { addr := xm, plen := l, epoch := e }
-      let obs := s!"ok {showGet (Session.get s' k)} {showObs before} 0"
-      -- what the IMPLEMENTATION answered
+      let obs := s!"ok {showGet (Session.get s' k)} {showObs before} {storeOwner st.nsubs s.store xm l} 0"
+      -- what the IMPLEMENTATION answered.  The announcement can be honoured when the prefix is in the pool
+      -- and free, or already the subscriber's.  "Free" is what the STORE says; only in a sequence in which an
+      -- earlier unapplicable announcement has made the store itself inconsistent does the allocator's own
+      -- reverse lookup excuse a refusal.
+      let clean := st.mon.conflicted.isEmpty && st.mon.badPfx.isEmpty
+      let mine := fun (o : String) => o == "none" || o == s!"s{k}"
       let ev : DistSpec.Ev := match splitTokens impl with
-        | ["ok", g, b, _] =>
-          let applicable := sessionInRange c xm l && (b == "none" || b == s!"s{k}")
-          .remotePut k xm l (parsePfx g) applicable (parseTagged 's' b)
+        | ["ok", g, b, sb, _] =>
+          let applicable := sessionInRange c xm l && mine sb && (mine b || clean)
+          .remotePut k xm l (parsePfx g) applicable (if mine b then parseTagged 's' sb else parseTagged 's' b)
         | _ => .nop
       result st (.session s') obs ev noClause
     | _, _, _ => (st, { modelObs := "badop" })
@@ -175,10 +216,8 @@ def stepSession (st : St) (s : Session.State) (toks : List String) (impl : Strin
     | some k => result st (.session (Session.remoteDel s k)) "ok" (.mutated k) noClause
     | none => (st, { modelObs := "badop" })
   | ["audit"] =>
-    let ev := match parseAudit impl with
-      | some rows => DistSpec.Ev.audit rows
-      | none => .nop
-    result st (.session s) (auditLine st.nsubs s.store (Session.get s)) ev noClause
+    let units := (List.range c.totalBig).map fun i => (Bitmap.prefixOf c i, c.plen)
+    result st (.session s) (auditLine st.nsubs s.store (Session.get s) units (Session.owner s)) (auditEv impl) noClause
   | _ => (st, { modelObs := "badop" })
 
 def leaseInRange (c : Epoch.Cfg) (addr plen : Nat) : Bool :=
@@ -233,14 +272,16 @@ def stepLease (st : St) (s : Lease.State) (toks : List String) (impl : String) :
       let xm := maskTo 32 x l
       let before := Lease.owner s x
       let s' := Lease.remotePut s k { addr := xm, plen := l, epoch := e }
-      let obs := s!"ok {showGet (Lease.get s' k)} {showObs before} {s'.a.epoch}"
+      let obs := s!"ok {showGet (Lease.get s' k)} {showObs before} {storeOwner st.nsubs s.store xm l} {s'.a.epoch}"
+      let clean := st.mon.conflicted.isEmpty && st.mon.badPfx.isEmpty
+      let mine := fun (o : String) => o == "none" || o == s!"s{k}"
       let ev : DistSpec.Ev := match splitTokens impl with
-        | ["ok", g, b, cur] =>
+        | ["ok", g, b, sb, cur] =>
           let stale := match cur.toNat? with
             | some cur => Lease.stale cur e
             | none => false
-          let applicable := leaseInRange c xm l && (b == "none" || b == s!"s{k}") && !stale
-          .remotePut k xm l (parsePfx g) applicable (parseTagged 's' b)
+          let applicable := leaseInRange c xm l && mine sb && (mine b || clean) && !stale
+          .remotePut k xm l (parsePfx g) applicable (if mine b then parseTagged 's' sb else parseTagged 's' b)
         | _ => .nop
       -- a remote put whose announced address is not what the model ends up with taints the history (D39)
       let drift := showGet (Lease.get s' k) != showPfx xm l
@@ -250,10 +291,9 @@ def stepLease (st : St) (s : Lease.State) (toks : List String) (impl : String) :
     | some k => result st (.lease (Lease.remoteDel s k)) "ok" (.mutated k) (clause st.taint)
     | none => (st, { modelObs := "badop" })
   | ["audit"] =>
-    let ev := match parseAudit impl with
-      | some rows => DistSpec.Ev.audit rows
-      | none => .nop
-    result st (.lease s) (auditLine st.nsubs s.store (Lease.get s)) ev (clause st.taint)
+    let units := (List.range c.total).map fun i => (c.base + i, 32)
+    result st (.lease s) (auditLine st.nsubs s.store (Lease.get s) units (fun a _ => Lease.owner s a)) (auditEv impl)
+      (clause st.taint)
   | _ => (st, { modelObs := "badop" })
 
 /-- the implementation's `x | y` answer after a fork -/
@@ -262,11 +302,36 @@ def forkEv (impl : String) : DistSpec.Ev :=
   | [a, b] => .forked a b
   | _ => .nop
 
+def probeBitmap (m : Bitmap.State) (n : Nat) : String :=
+  let c := m.cfg
+  ",".intercalate ((List.range n).map fun i =>
+    s!"s{i + 1}={BitmapDrv.showLookup c (Bitmap.lookup m (i + 1))}") ++ ";" ++
+  ",".intercalate ((List.range (min c.totalBig 64)).map fun i =>
+    s!"{BitmapDrv.showAddr c (Bitmap.prefixOf c i)}={BitmapDrv.showObs c (Bitmap.lookupByPrefix m (Bitmap.prefixOf c i) c.plen)}") ++ ";" ++
+  (BitmapDrv.showObs c (Bitmap.stats m)).replace " " "/"
+
+/-- both copies answered an allocation with a unit, and not the same one -/
+def divergentAlloc (impl : String) : Bool :=
+  match impl.splitOn " | " with
+  | [a, b] => a != b && a.startsWith "ok " && b.startsWith "ok "
+  | _ => false
+
 def stepRtBitmap (st : St) (a : Bitmap.State) (b : Option Bitmap.State) (toks : List String) (impl : String) :
     St × LineResult :=
-  let clause := fun (v : String) => if v == "roundtrip" && st.moved then "D40" else "none"
   match toks with
   | ["fork"] => ({ st with model := .rtBitmap a (some (Bitmap.roundtrip a)) }, { modelObs := "ok" })
+  | ["probe", n] => match n.toNat? with
+    | some n =>
+      match b with
+      | none => (st, { modelObs := probeBitmap a n })
+      | some b =>
+        -- D40 is about the allocation hint only: a read-only difference is attributed to it solely as the
+        -- consequence of an earlier divergent allocation
+        let clause := fun (v : String) => if v == "roundtrip" && st.diverged then "D40" else "none"
+        let (mon', vs) := DistSpec.check st.mon (forkEv impl)
+        ({ st with mon := mon' },
+         { modelObs := s!"{probeBitmap a n} | {probeBitmap b n}", viols := vs.map fun (v, d) => (v, clause v, d) })
+    | none => (st, { modelObs := "badop" })
   | _ =>
     match BitmapDrv.parseOp toks with
     | some op =>
@@ -283,15 +348,40 @@ def stepRtBitmap (st : St) (a : Bitmap.State) (b : Option Bitmap.State) (toks : 
       | none => ({ st with model := .rtBitmap a' none, moved := moved }, { modelObs := shown a oa })
       | some b =>
         let (b', ob) := Bitmap.step b op
+        let isAlloc := match op with
+          | .alloc _ => true
+          | _ => false
+        -- the exclusion clause of D40: after a SetAllocation move, the two copies hand a new subscriber
+        -- different units (hint not serialised); later differences are its consequence
+        let d40 := st.moved && ((isAlloc && divergentAlloc impl) || st.diverged)
+        let clause := fun (v : String) => if v == "roundtrip" && d40 then "D40" else "none"
         let (mon', vs) := DistSpec.check st.mon (forkEv impl)
-        ({ st with model := .rtBitmap a' (some b'), mon := mon', moved := moved },
+        ({ st with model := .rtBitmap a' (some b'), mon := mon', moved := moved,
+                   diverged := st.diverged || (st.moved && isAlloc && divergentAlloc impl) },
          { modelObs := s!"{shown a oa} | {shown b ob}", viols := vs.map fun (n, d) => (n, clause n, d) })
     | none => (st, { modelObs := "badop" })
+
+def probeEpoch (m : Epoch.State) (n : Nat) : String :=
+  let c := m.cfg
+  ",".intercalate ((List.range n).map fun i =>
+    s!"s{i + 1}={EpochDrv.showObs (Epoch.lookup m (i + 1))}") ++ ";" ++
+  ",".intercalate ((List.range (min c.total 64)).map fun i =>
+    s!"{toHex (c.base + i)}={EpochDrv.showObs (Epoch.lookupByIP m (c.base + i))}") ++ ";" ++
+  (EpochDrv.showObs (Epoch.stats m)).replace " " "/"
 
 def stepRtEpoch (st : St) (a : Epoch.State) (b : Option Epoch.State) (toks : List String) (impl : String) :
     St × LineResult :=
   match toks with
   | ["fork"] => ({ st with model := .rtEpoch a (some (Epoch.roundtrip a)) }, { modelObs := "ok" })
+  | ["probe", n] => match n.toNat? with
+    | some n =>
+      match b with
+      | none => (st, { modelObs := probeEpoch a n })
+      | some b =>
+        let (mon', vs) := DistSpec.check st.mon (forkEv impl)
+        ({ st with mon := mon' },
+         { modelObs := s!"{probeEpoch a n} | {probeEpoch b n}", viols := vs.map fun (v, d) => (v, "none", d) })
+    | none => (st, { modelObs := "badop" })
   | _ =>
     match EpochDrv.parseOp toks with
     | some op =>
